@@ -79,6 +79,16 @@ func checkAddFeature(c *Ctx, rule string) {
 		st, why = broken, "AddFeature never stores the sequence into feature.ParentSequence: re-added features have no parent, GetSequence cannot find their bases"
 	case copyLoad != nil && domInstr(copyLoad, linkStore) && !domInstr(linkStore, copyLoad):
 		st, why = broken, "AddFeature copies *feature before it sets ParentSequence: the copy appended to sequence.Features has a nil or stale parent"
+		// ... unless the copy is linked by a store of its own (copy first, then link copy and original)
+		eachInstr(af, func(i ssa.Instruction) {
+			if s2, ok := i.(*ssa.Store); ok && s2 != linkStore {
+				if fa, ok := s2.Addr.(*ssa.FieldAddr); ok && storeFieldName(fa) == "ParentSequence" && tb.T(s2.Val).isParam(0) {
+					if _, isLocal := fa.X.(*ssa.Alloc); isLocal {
+						st, why = unknown, "the copy is taken before the feature is linked, and a local copy is linked by a store of its own; which copy is appended is not followed"
+					}
+				}
+			}
+		})
 	case copyLoad != nil && app != nil && domInstr(linkStore, copyLoad):
 		t := tb.T(app.(ssa.Value))
 		stored := t.Args[0].String() == "field[Features](deref(param[0]))" && t.Args[1].contains(func(x *Term) bool { return x.Op == "partial" && x.Args[0].String() == "deref(param[1])" })
